@@ -32,8 +32,10 @@ def unbe (b : Bytes) : Nat := b.foldl (fun acc x => acc * 256 + x.toNat) 0
 
 /-! ### constants of the format (checked against the regenerated `Gen.Consts`) -/
 
-def magicBeg : Bytes := "0g1t2r".toUTF8.toList
-def magicEnd : Bytes := "3e4a5p".toUTF8.toList
+/-- "0g1t2r" -/
+def magicBeg : Bytes := [48, 103, 49, 116, 50, 114]
+/-- "3e4a5p" -/
+def magicEnd : Bytes := [51, 101, 52, 97, 53, 112]
 def fmtVersion : Nat := 4
 def plocLen : Nat := 12
 def itemHdrLen : Nat := 16
@@ -125,7 +127,11 @@ def loadTree (f : Bytes) : Nat → Option Ploc → Option Tree
 def hexDigit (n : Nat) : UInt8 :=
   if n < 10 then UInt8.ofNat (48 + n) else UInt8.ofNat (87 + n)
 
-def natDigits (n : Nat) : Bytes := (toString n).toUTF8.toList
+/-- decimal digits of `n` (what `strconv`/`encoding/json` print for an integer) -/
+def natDigits (n : Nat) : Bytes :=
+  if h : n < 10 then [UInt8.ofNat (48 + n)]
+  else natDigits (n / 10) ++ [UInt8.ofNat (48 + n % 10)]
+decreasing_by omega
 
 /-- `\u00XX` -/
 def u00 (c : UInt8) : Bytes :=
@@ -134,8 +140,8 @@ def u00 (c : UInt8) : Bytes :=
 /-- Go's string escaping (HTML-safe mode, Go ≥ 1.22) of a valid UTF-8 byte string -/
 def jsonEscape : Bytes → Bytes
   | [] => []
-  | 0xE2 :: 0x80 :: 0xA8 :: rest => "\\u2028".toUTF8.toList ++ jsonEscape rest
-  | 0xE2 :: 0x80 :: 0xA9 :: rest => "\\u2029".toUTF8.toList ++ jsonEscape rest
+  | 0xE2 :: 0x80 :: 0xA8 :: rest => [92, 117, 50, 48, 50, 56] ++ jsonEscape rest   -- \u2028
+  | 0xE2 :: 0x80 :: 0xA9 :: rest => [92, 117, 50, 48, 50, 57] ++ jsonEscape rest   -- \u2029
   | c :: rest =>
     (if c = 34 then [92, 34]
      else if c = 92 then [92, 92]
@@ -147,9 +153,14 @@ def jsonEscape : Bytes → Bytes
      else if c < 32 ∨ c = 60 ∨ c = 62 ∨ c = 38 then u00 c
      else [c]) ++ jsonEscape rest
 
+/-- `{"o":` -/
+def jsonO : Bytes := [123, 34, 111, 34, 58]
+/-- `,"l":` -/
+def jsonL : Bytes := [44, 34, 108, 34, 58]
+
 def jsonPloc (p : Option Ploc) : Bytes :=
   let p' := p.getD ⟨0, 0⟩
-  "{\"o\":".toUTF8.toList ++ natDigits p'.off ++ ",\"l\":".toUTF8.toList ++ natDigits p'.len ++ [125]
+  jsonO ++ natDigits p'.off ++ jsonL ++ natDigits p'.len ++ [125]
 
 def jsonEntry (e : Bytes × Option Ploc) : Bytes :=
   [34] ++ jsonEscape e.1 ++ [34, 58] ++ jsonPloc e.2
@@ -207,10 +218,10 @@ def expect (pre : Bytes) (b : Bytes) : Option Bytes :=
   if pre.isPrefixOf b then some (b.drop pre.length) else none
 
 def parsePloc (b : Bytes) : Option (Option Ploc × Bytes) := do
-  let b ← expect "{\"o\":".toUTF8.toList b
+  let b ← expect jsonO b
   let (o, b, n1) := parseNat b
   if n1 = 0 then none
-  let b ← expect ",\"l\":".toUTF8.toList b
+  let b ← expect jsonL b
   let (l, b, n2) := parseNat b
   if n2 = 0 then none
   let b ← expect [125] b
@@ -260,4 +271,14 @@ def rootAt (f : Bytes) (e : Nat) : Option (List (Bytes × Option Ploc)) := do
   if ver ≠ fmtVersion ∨ len0 ≠ len then none
   decJson (data.drop 20)
 
+end Gkv
+
+namespace Gkv
+-- the literal byte lists above are the UTF-8 of the strings they stand for (evaluated checks)
+#guard magicBeg == "0g1t2r".toUTF8.toList
+#guard magicEnd == "3e4a5p".toUTF8.toList
+#guard jsonO == "{\"o\":".toUTF8.toList
+#guard jsonL == ",\"l\":".toUTF8.toList
+#guard natDigits 0 == "0".toUTF8.toList && natDigits 1234567890 == "1234567890".toUTF8.toList
+#guard jsonEscape [0xE2, 0x80, 0xA8, 34] == "\\u2028\\\"".toUTF8.toList
 end Gkv
